@@ -64,7 +64,12 @@ def _register():
         st.env_calls[eid] = n + 1
         for path, field, value in st.env_table.get(eid, {}).get(n, ()):
             share = self.store.create(path)
-            share.update(**{field: value})
+            if field == "@push":              # deck push
+                share.push(value)
+            elif field.startswith("@append:"):  # append to a list-valued field (streak)
+                share[field[8:]].append(value)
+            else:
+                share.update(**{field: value})
             st.add(self.store.stamp, "env", eid, path, field, value)
 
     _REGISTERED[0] = True
